@@ -1,4 +1,5 @@
 import SedpackProofs.TreeSession
+import SedpackProofs.TreeEnum
 /-!
 # C08 — Continued writing is append-only
 
@@ -29,7 +30,7 @@ theorem C08_session_append_only (H : SList → Nat) (B fuel : Nat) (hfuel : B < 
     (se : Session) (hse : ∀ w ∈ se, w.1 ≠ [] ∧ w.1.length ≤ B) (hg : Good H B ds) :
     (∀ s x, Reaches ds.fs [s] x → Reaches (session H fuel ds se).fs [s] x) ∧
     (∀ x, filesAt ds.fs x <+: filesAt (session H fuel ds se).fs x) := by
-  obtain ⟨_, _, hreach, hfiles⟩ := session_good H B fuel hfuel hB ds se hse hg
+  obtain ⟨_, _, hreach, hfiles, _⟩ := session_good H B fuel hfuel hB ds se hse hg
   obtain ⟨_, _, _, hpre⟩ := applyWrites_props B se ds.fs hg.wf hg.depth
   refine ⟨fun s x hx => hreach s x (reaches_of_same_kids (applyWrites_kids se ds.fs) hx), fun x => ?_⟩
   rw [hfiles x]; exact hpre x
@@ -38,12 +39,56 @@ theorem C08_session_append_only (H : SList → Nat) (B fuel : Nat) (hfuel : B < 
 theorem C08_untouched_dirs_unchanged (H : SList → Nat) (B fuel : Nat) (hfuel : B < fuel + 1) (hB : 1 ≤ B) (ds : DS)
     (se : Session) (hse : ∀ w ∈ se, w.1 ≠ [] ∧ w.1.length ≤ B) (hg : Good H B ds) (x : Dir)
     (hx : ∀ w ∈ se, w.1 ≠ x) : filesAt (session H fuel ds se).fs x = filesAt ds.fs x := by
-  obtain ⟨_, _, _, hfiles⟩ := session_good H B fuel hfuel hB ds se hse hg
+  obtain ⟨_, _, _, hfiles, _⟩ := session_good H B fuel hfuel hB ds se hse hg
   obtain ⟨_, _, hsame, _⟩ := applyWrites_props B se ds.fs hg.wf hg.depth
   rw [hfiles x]; simp only [filesAt, hsame x hx]
+
+/-- **A session adds exactly what it wrote** (in terms of what iteration enumerates).  In a dataset all of whose list
+documents are linked into their split's tree, after any completed session the shards the depth-first walk yields for a
+split are exactly those it yielded before plus the shards the session closed in directories of that split. -/
+theorem C08_session_adds_exactly (H : SList → Nat) (B fuel : Nat) (hfuel : B < fuel + 1) (hB : 1 ≤ B) (ds : DS) (se : Session)
+    (hse : ∀ w ∈ se, w.1 ≠ [] ∧ w.1.length ≤ B) (hg : Good H B ds) (hl : Linked ds.fs) (s : Nat) (sh : Shard) :
+    sh ∈ shardsOf fuel (session H fuel ds se).fs [s] ↔
+      sh ∈ shardsOf fuel ds.fs [s] ∨ ∃ w ∈ se, w.1.headD 0 = s ∧ sh ∈ w.2 :=
+  session_adds_exactly H B fuel hfuel hB ds se hse hg hl s sh
+
+/-- the hypotheses of `C08_session_adds_exactly` hold after **every history of completed sessions** starting from the empty
+dataset: the tree is exact and free of unlinked lists (those only arise from sessions that did not complete — C06) -/
+theorem C08_history_invariant (H : SList → Nat) (B fuel : Nat) (hfuel : B < fuel + 1) (hB : 1 ≤ B)
+    (hist : List Session) (hh : ∀ se ∈ hist, ∀ w ∈ se, w.1 ≠ [] ∧ w.1.length ≤ B) :
+    Good H B (hist.foldl (session H fuel) { fs := fun _ => none, splits := fun _ => none }) ∧
+    Linked (hist.foldl (session H fuel) { fs := fun _ => none, splits := fun _ => none }).fs := by
+  have key : ∀ (hist : List Session) (ds : DS), (∀ se ∈ hist, ∀ w ∈ se, w.1 ≠ [] ∧ w.1.length ≤ B) → Good H B ds → Linked ds.fs →
+      Good H B (hist.foldl (session H fuel) ds) ∧ Linked (hist.foldl (session H fuel) ds).fs := by
+    intro hist
+    induction hist with
+    | nil => intro ds _ h1 h2; exact ⟨h1, h2⟩
+    | cons se rest ih =>
+      intro ds hh hg hl
+      simp only [List.foldl_cons]
+      have hse := hh se List.mem_cons_self
+      exact ih _ (fun se' h' => hh se' (List.mem_cons_of_mem _ h'))
+        (session_good H B fuel hfuel hB ds se hse hg).1 (session_linked H B fuel hfuel hB ds se hse hg hl)
+  apply key hist _ hh
+  · exact ⟨fun d l h => by simp at h, fun d l h => by simp at h, fun s k h => by simp at h⟩
+  · intro x hx; simp at hx
+
+/-- what the walk enumerates is exactly what the reachable lists name (used by C03 / C04 as well) -/
+theorem C08_enumeration_is_reachable_lists (B fuel : Nat) (fs : FS) (d : Dir) (hwf : WF fs) (hdep : DepthOK fs B)
+    (hle : d.length ≤ B) (hf : B < fuel + d.length) (sh : Shard) :
+    sh ∈ shardsOf fuel fs d ↔ ∃ x, Reaches fs d x ∧ sh ∈ filesAt fs x :=
+  mem_shardsOf B fuel fs d hwf hdep hle hf sh
 
 /-- `Dataset.create` on an existing dataset is refused and changes nothing -/
 theorem C08_create_refused (ds : DS) : (create true ds).1 = none ∧ (create true ds).2 = ds := by
   simp [create]
+
+/-- Non-vacuity: two sessions (root of split 0, then a nested sub-directory of split 0 and the root of split 1);
+afterwards split 0 enumerates the three shards written to it, split 1 its own one. -/
+example :
+    let H : SList → Nat := fun l => l.n + 17 * l.files.length
+    let ds := [[([0], [⟨1, 2, [], 0, 0⟩])], [([0, 7, 8], [⟨2, 1, [], 0, 0⟩, ⟨3, 2, [], 0, 0⟩]), ([1], [⟨4, 5, [], 0, 0⟩])]].foldl
+      (session H 5) { fs := fun _ => none, splits := fun _ => none }
+    ((shardsOf 5 ds.fs [0]).map (·.file), (shardsOf 5 ds.fs [1]).map (·.file)) = ([1, 2, 3], [4]) := by decide
 
 end Sedpack.Tree
